@@ -48,6 +48,16 @@ def make(cfg):
         from checks.c06 import _patch_mesh_cache
 
         _patch_mesh_cache()
+        comm_name = (hsdp or {}).get("comm", "FP32")
+        low = comm_name in ("BF16", "FP16")
+        if low:
+            symx.CTX.opts["round_low_precision"] = True  # casts to bfloat16/float16 become the uninterpreted rounding round_<dtype>(x)
+        rname = "round_" + {"BF16": "bfloat16", "FP16": "float16"}.get(comm_name, "")
+
+        def rnd(x):
+            x = symx.SymReal.lift(x)
+            return x if (x.c is not None and x.c == 0) else symx.opaque(rname, [x])
+
         W = [H.arr_var(f"w{i}", s) for i, s in enumerate(origs)]
         flatW = [w.reshape(-1) for w in W]
         grads_all = []
@@ -81,7 +91,10 @@ def make(cfg):
                                                  sharding_strategy=ShardingStrategy.HYBRID_SHARD if hsdp else ShardingStrategy.FULL_SHARD) for i, p in enumerate(run.params)}
                 if hsdp:
                     mesh = torch.distributed.device_mesh.DeviceMesh("cpu", [[q * shard_ranks + t for t in range(shard_ranks)] for q in range(replicas)], mesh_dim_names=("replicate", "shard"))
-                    return HSDPShampooConfig(param_to_metadata=meta, device_mesh=mesh, num_trainers_per_group=hsdp.get("group", -1), communicate_params=hsdp.get("communicate_params", False))
+                    from distributed_shampoo.shampoo_types import CommunicationDType
+
+                    return HSDPShampooConfig(param_to_metadata=meta, device_mesh=mesh, num_trainers_per_group=hsdp.get("group", -1), communicate_params=hsdp.get("communicate_params", False),
+                                             communication_dtype=getattr(CommunicationDType, comm_name))
                 return FSDPShampooConfig(param_to_metadata=meta)
 
             ccfg["distributed_config_factory"] = factory
@@ -137,8 +150,13 @@ def make(cfg):
                     got = results[r][k]
                     for i, (s, e2) in enumerate(my):
                         for off in range(e2 - s):
-                            symx.prove_equal(f"shard rank {srank}{' replica ' + str(rep) if hsdp else ''}: element {s + off} of parameter {i} after step {k + 1} equals the serial optimizer on the recovered block",
-                                             got[i][off], exp[(i, s + off)], info)
+                            want = exp[(i, s + off)]
+                            if low:
+                                # reduced precision (one step from a common state): all replicas identical, off the serial result only by the rounding of what is communicated
+                                w0 = flatW[i][s + off]
+                                want = rnd(want) if hsdp.get("communicate_params", False) else w0 + rnd(want - w0)
+                            symx.prove_equal(f"shard rank {srank}{' replica ' + str(rep) if hsdp else ''}: element {s + off} of parameter {i} after step {k + 1} equals the serial optimizer on the recovered block"
+                                             + (" up to the rounding of the communicated quantity" if low else ""), got[i][off], want, info)
         if hsdp and not bad:
             from checks.c06 import prove_state_placement
 
@@ -192,6 +210,9 @@ def jobs_for(tier):
     # HSDP: replicate x shard mesh, blocks distributed over the replicate group
     add([(2, 4), (3,)], even_cuts([(2, 4), (3,)], 2, offsets=[[5], [2]]), hsdp=dict(replicate=2, group=-1), graft=None, fixed=dict(mom=0, wd=0))
     add([(2, 4), (3,)], even_cuts([(2, 4), (3,)], 1), hsdp=dict(replicate=2, group=2, communicate_params=True), graft="sgd", fixed=dict(mom=0))
+    # reduced-precision communication (one step from a common state): replicas identical, deviation = rounding of the communicated quantity
+    add([(2, 4), (3,)], even_cuts([(2, 4), (3,)], 1), hsdp=dict(replicate=2, group=2, comm="BF16"), graft=None, T=1, sps=1, fixed=dict(mom=0))
+    add([(2, 4), (3,)], even_cuts([(2, 4), (3,)], 2, offsets=[[5], [2]]), hsdp=dict(replicate=2, group=2, comm="FP16", communicate_params=True), graft="sgd", T=1, sps=1, fixed=dict(mom=0, wd=0))
     # HSDP with a gradient that comes and goes for a block owned by ONE replica rank while every rank keeps other gradients
     add([(2, 4), (3,), (2,)], even_cuts([(2, 4), (3,), (2,)], 1), hsdp=dict(replicate=2, group=2), presence="symbolic", presence_params=[2], T=3, graft=None,
         fixed=dict(mom=0, wd=0, b1=0), merge=False)
